@@ -240,10 +240,14 @@ def main(argv=None):
                 params[k] = max(1, int(v * a.scale))
     nworkers = a.workers or params.pop("workers", 8)
     params.pop("workers", None)
+    # per-worker CPU budgets (soft: remaining cases skipped => inconclusive;
+    # hard: RLIMIT_CPU) and a generous wall-clock watchdog
+    thorough = tier == "thorough"
     budgets = {
-        "cpu_budget_s": params.pop("cpu_budget_s", 600),
-        "cpu_hard_s": params.pop("cpu_hard_s", 3000),
-        "wall_limit_s": params.pop("wall_limit_s", 5400),
+        "cpu_budget_s": params.pop("cpu_budget_s", 36000 if thorough else 900),
+        "cpu_hard_s": params.pop("cpu_hard_s", 50000 if thorough else 3000),
+        "wall_limit_s": params.pop("wall_limit_s",
+                                   50000 if thorough else 5400),
     }
 
     if a.replay:
